@@ -91,6 +91,10 @@ pub struct Req {
     pub conn: ConnP,
     pub conn_delay_us: u64,
     pub delay_us: u64,
+    /// plain-HTTP requests only: 1 = Content-Length "3x", 2 = two Content-Length headers,
+    /// 3 = two Host headers - framing the forwarder must refuse (after it has connected)
+    #[serde(default)]
+    pub bad_framing: u8,
 }
 
 #[derive(Clone, Debug, Serialize, Deserialize)]
@@ -361,7 +365,9 @@ fn draw_req(rng: &mut Rng, focus: Focus, idx: usize, n_users: usize) -> Req {
         }
         _ => format!("_check:{}", port),
     };
+    let bad_framing = if kind == 7 && rng.chance(1, 4) { 1 + rng.below(3) as u8 } else { 0 };
     Req {
+        bad_framing,
         method,
         target,
         auth,
@@ -446,6 +452,7 @@ fn systematic_plan(items: &[(String, u8, bool)], k: usize) -> ReqPlan {
                 (authority_of(addr, port), None)
             };
             Req {
+                bad_framing: 0,
                 method: "CONNECT".into(),
                 target,
                 auth: AuthCase::Valid(0),
@@ -978,6 +985,9 @@ async fn h2_request(
         .header("user-agent", "sim/1.0")
         .header("cookie", format!("CANARY-COOKIE-{}", i))
         .header("authorization", format!("Bearer CANARY-AUTHZ-{}", i));
+    if r.bad_framing == 3 {
+        b = b.header("host", "first.sim.test").header("host", "second.sim.test");
+    }
     let req = match b.body(()) {
         Ok(r) => r,
         Err(e) => {
@@ -1076,6 +1086,12 @@ async fn h1_request(plan: ReqPlan, i: usize, r: Req, conn: PeerConn, obs: Arc<Mu
         head.extend_from_slice(b"Proxy-Authorization: ");
         head.extend_from_slice(&h);
         head.extend_from_slice(b"\r\n");
+    }
+    match r.bad_framing {
+        1 => head.extend_from_slice(b"Content-Length: 3x\r\n"),
+        2 => head.extend_from_slice(b"Content-Length: 5\r\nContent-Length: 7\r\n"),
+        3 => head.extend_from_slice(b"Host: second.sim.test\r\n"),
+        _ => {}
     }
     sim::canary("cookie", &format!("CANARY-COOKIE-{}", i));
     sim::canary("authorization", &format!("CANARY-AUTHZ-{}", i));
@@ -1639,6 +1655,11 @@ fn judge_authorised(
             format!("resp:{}:no-connect-attempt", proto),
             format!("request {} ({}) never led to a connect; status {}", i, r.target, status),
         );
+        return;
+    }
+    if r.bad_framing != 0 && !is_connect {
+        // what a request with contradictory framing is answered is not C10's business
+        out.cell("plain-http:bad-framing");
         return;
     }
     if status != expect.0 || (expect.0 == 502 && w != expect.1) {
